@@ -134,8 +134,9 @@ _p('C05', ['r_validate', 'r_features', 'r_table', 'r_norec'],
    'decode arm (R-TABLE); no call cycle is reachable from parse (R-NOREC), so nesting depth cannot grow the call stack.',
    not_decided='termination / absence of hangs (bounded by input length, argued not checked); exactness of wasmparser itself; '
                'panics inside wasmparser/gimli')
-_p('C02', ['r_emitorder', 'r_edges', 'r_visit', 'r_norec', 'r_segments', 'r_flow', 'r_table', 'r_control'],
-   'Validity is decided as preservation: the input was accepted by the validator (C05), so an output that is the input up to '
+_p('C02', ['r_emitorder', 'r_edges', 'r_visit', 'r_norec', 'r_segments', 'r_flow', 'r_table', 'r_control', 'r_pushpair'],
+   'Every emitted entity gets its index unconditionally (R-PUSHPAIR: one index per appended item; data indices assigned '
+   'whether or not a DataCount section is written).  Validity is decided as preservation: the input was accepted by the validator (C05), so an output that is the input up to '
    'consistent renumbering is accepted too.  The type-carrying parts of that isomorphism are checked structurally: every '
    'operator is re-encoded as itself with its immediates (R-TABLE), block signatures and labels survive (R-CONTROL), every '
    'module-level record is re-emitted with its full type, element/data segments with their mode, element type and item '
@@ -145,7 +146,7 @@ _p('C02', ['r_emitorder', 'r_edges', 'r_visit', 'r_norec', 'r_segments', 'r_flow
    'kept and therefore indexed; no recursion is reachable from emit (R-NOREC).',
    not_decided='acceptance of the output by an independent validator; panics behind API misuse (ids of deleted items)')
 
-_p('C07', ['r_sweep', 'r_edges'],
+_p('C07', ['r_sweep', 'r_edges', 'r_entryty'],
    'Precision of the GC: gc::run is evaluated with nothing inlined and must sweep every kind tracked by `Used` against the '
    'used set of that kind, imports by the kind they import; the helper `unused` must return exactly the complement; '
    'Used::new may root only the documented categories and each worklist step may retain only what the popped entity '
